@@ -5,9 +5,9 @@ From V Require Import Common.Base C13.KwSpec C13.Token C13.LexSpec C13.LexProofs
 From Coq Require Import String.
 
 (* ---- relational view of the fuelled parser ---- *)
-Definition PEx (L : Z) (ts : list tok) (res : expr * list tok) : Prop := exists n, parse_expr n L ts = Some res.
-Definition PSx (L : Z) (left : expr) (ll : Z) (ts : list tok) (res : expr * list tok) : Prop :=
-  exists n, parse_suffix n L left ll ts = Some res.
+Definition PEx (ni : bool) (L : Z) (ts : list tok) (res : expr * list tok) : Prop := exists n, parse_expr n ni L ts = Some res.
+Definition PSx (ni : bool) (L : Z) (left : expr) (ll : Z) (ts : list tok) (res : expr * list tok) : Prop :=
+  exists n, parse_suffix n ni L left ll ts = Some res.
 
 Lemma tok_eqb_eq a b : tok_eqb a b = true -> a = b.
 Proof.
@@ -20,124 +20,125 @@ Qed.
 
 Definition PAx (ts : list tok) (res : expr * list tok) : Prop := exists n, parse_args n ts = Some res.
 
-Lemma E_atom L t r a res :
-  is_new t = false -> prefix_op t = None -> atom_of t = Some a -> PSx L a S_Member r res -> PEx L (t :: r) res.
+Lemma E_atom ni L t r a res :
+  is_new t = false -> prefix_op t = None -> atom_of t = Some a -> PSx ni L a S_Member r res -> PEx ni L (t :: r) res.
 Proof. intros H0 H1 H2 [n Hn]. exists (S n). rewrite parse_expr_S. unfold expr_step. rewrite H0, H1, H2. exact Hn. Qed.
 
-Lemma E_new_args L t r c p r'' a r3 res :
-  is_new t = true -> PEx S_Call r (c, p :: r'') -> is_open p = true -> PAx r'' (a, r3) ->
-  PSx L (ENew c a) S_Member r3 res -> PEx L (t :: r) res.
+Lemma E_new_args ni L t r c p r'' a r3 res :
+  is_new t = true -> PEx false S_Call r (c, p :: r'') -> is_open p = true -> PAx r'' (a, r3) ->
+  PSx ni L (ENew c a) S_Member r3 res -> PEx ni L (t :: r) res.
 Proof.
   intros H0 [n1 Hn1] H1 [n2 Hn2] [n3 Hn3]. exists (S (Nat.max n1 (Nat.max n2 n3))). rewrite parse_expr_S. unfold expr_step.
-  rewrite H0. rewrite (parse_expr_mono n1 _ _ _ _ (Nat.le_max_l _ _) Hn1). rewrite H1.
+  rewrite H0. rewrite (parse_expr_mono n1 _ _ _ _ _ (Nat.le_max_l _ _) Hn1). rewrite H1.
   rewrite (parse_args_mono n2 (Nat.max n1 (Nat.max n2 n3)) _ _ (Nat.le_trans _ _ _ (Nat.le_max_l n2 n3) (Nat.le_max_r n1 _)) Hn2).
-  exact (parse_suffix_mono n3 _ _ _ _ _ _ (Nat.le_trans _ _ _ (Nat.le_max_r n2 n3) (Nat.le_max_r n1 _)) Hn3).
+  exact (parse_suffix_mono n3 _ _ _ _ _ _ _ (Nat.le_trans _ _ _ (Nat.le_max_r n2 n3) (Nat.le_max_r n1 _)) Hn3).
 Qed.
-Lemma E_new_bare L t r c r' res :
-  is_new t = true -> PEx S_Call r (c, r') -> (match r' with p :: _ => is_open p = false | [] => True end) ->
-  PSx L (ENew c ANil) S_New r' res -> PEx L (t :: r) res.
+Lemma E_new_bare ni L t r c r' res :
+  is_new t = true -> PEx false S_Call r (c, r') -> (match r' with p :: _ => is_open p = false | [] => True end) ->
+  PSx ni L (ENew c ANil) S_New r' res -> PEx ni L (t :: r) res.
 Proof.
   intros H0 [n1 Hn1] H1 [n2 Hn2]. exists (S (Nat.max n1 n2)). rewrite parse_expr_S. unfold expr_step.
-  rewrite H0. rewrite (parse_expr_mono n1 _ _ _ _ (Nat.le_max_l _ _) Hn1).
-  pose proof (parse_suffix_mono n2 _ _ _ _ _ _ (Nat.le_max_r n1 n2) Hn2) as Hs.
+  rewrite H0. rewrite (parse_expr_mono n1 _ _ _ _ _ (Nat.le_max_l _ _) Hn1).
+  pose proof (parse_suffix_mono n2 _ _ _ _ _ _ _ (Nat.le_max_r n1 n2) Hn2) as Hs.
   destruct r' as [|p r'']; [exact Hs|]. rewrite H1. exact Hs.
 Qed.
 
-Lemma E_prefix L t r o v r' res :
+Lemma E_prefix ni L t r o v r' res :
   is_new t = false -> prefix_op t = Some o -> S_New <=? L = false ->
-  PEx S_Unary r (v, r') -> negb (is_update o) || is_target v = true ->
-  PSx L (EUn o v) S_Unary r' res -> PEx L (t :: r) res.
+  PEx false S_Unary r (v, r') -> negb (is_update o) || is_target v = true ->
+  PSx ni L (EUn o v) S_Unary r' res -> PEx ni L (t :: r) res.
 Proof.
   intros H0 H1 H1b [n1 Hn1] H2 [n2 Hn2]. exists (S (Nat.max n1 n2)). rewrite parse_expr_S. unfold expr_step. rewrite H0, H1, H1b.
-  rewrite (parse_expr_mono n1 (Nat.max n1 n2) _ _ _ (Nat.le_max_l _ _) Hn1). rewrite H2.
-  exact (parse_suffix_mono n2 _ _ _ _ _ _ (Nat.le_max_r _ _) Hn2).
+  rewrite (parse_expr_mono n1 (Nat.max n1 n2) _ _ _ _ (Nat.le_max_l _ _) Hn1). rewrite H2.
+  exact (parse_suffix_mono n2 _ _ _ _ _ _ _ (Nat.le_max_r _ _) Hn2).
 Qed.
 
-Lemma E_paren L t r e c r'' res :
+Lemma E_paren ni L t r e c r'' res :
   is_new t = false -> prefix_op t = None -> atom_of t = None -> is_open t = true ->
-  PEx 0 r (e, c :: r'') -> is_close c = true -> PSx L e S_Member r'' res -> PEx L (t :: r) res.
+  PEx false 0 r (e, c :: r'') -> is_close c = true -> PSx ni L e S_Member r'' res -> PEx ni L (t :: r) res.
 Proof.
   intros H0 H1 H2 H3 [n1 Hn1] H4 [n2 Hn2]. exists (S (Nat.max n1 n2)). rewrite parse_expr_S. unfold expr_step.
-  rewrite H0, H1, H2, H3. rewrite (parse_expr_mono n1 (Nat.max n1 n2) _ _ _ (Nat.le_max_l _ _) Hn1). rewrite H4.
-  exact (parse_suffix_mono n2 _ _ _ _ _ _ (Nat.le_max_r _ _) Hn2).
+  rewrite H0, H1, H2, H3. rewrite (parse_expr_mono n1 (Nat.max n1 n2) _ _ _ _ (Nat.le_max_l _ _) Hn1). rewrite H4.
+  exact (parse_suffix_mono n2 _ _ _ _ _ _ _ (Nat.le_max_r _ _) Hn2).
 Qed.
 
-Lemma S_nil L left ll : PSx L left ll [] (left, []).
+Lemma S_nil ni L left ll : PSx ni L left ll [] (left, []).
 Proof. exists 1%nat. reflexivity. Qed.
 
-Lemma S_dot L left ll t s r res :
-  is_dot t = true -> S_Call <=? ll = true -> PSx L (EDot left s) S_Member r res -> PSx L left ll (t :: TId s :: r) res.
+Lemma S_dot ni L left ll t s r res :
+  is_dot t = true -> S_Call <=? ll = true -> PSx ni L (EDot left s) S_Member r res -> PSx ni L left ll (t :: TId s :: r) res.
 Proof. intros H1 H2 [n Hn]. exists (S n). rewrite parse_suffix_S. unfold suffix_step. rewrite H1, H2. exact Hn. Qed.
 
 Definition plain_tok (t : tok) : Prop := is_dot t = false /\ is_lbrack t = false /\ is_open t = false /\ is_quest t = false.
 
-Lemma S_post L left ll t o r res :
+Lemma S_post ni L left ll t o r res :
   plain_tok t -> postfix_op t = Some o -> S_Update <=? L = false ->
-  (S_Member <=? ll) && is_target left = true -> PSx L (EUn o left) S_Update r res -> PSx L left ll (t :: r) res.
+  (S_Member <=? ll) && is_target left = true -> PSx ni L (EUn o left) S_Update r res -> PSx ni L left ll (t :: r) res.
 Proof. intros (H1 & H1b & H1o & H1c) H2 H3 H4 [n Hn]. exists (S n). rewrite parse_suffix_S. unfold suffix_step. rewrite H1, H1b, H1o, H1c, H2, H3, H4. exact Hn. Qed.
 
-Lemma S_call L left ll t r a r' res :
+Lemma S_call ni L left ll t r a r' res :
   is_dot t = false -> is_lbrack t = false -> is_open t = true -> S_Call <=? L = false -> S_Call <=? ll = true ->
-  PAx r (a, r') -> PSx L (ECall left a) S_Call r' res -> PSx L left ll (t :: r) res.
+  PAx r (a, r') -> PSx ni L (ECall left a) S_Call r' res -> PSx ni L left ll (t :: r) res.
 Proof.
   intros H1 H2 H3 H4 H5 [n1 Hn1] [n2 Hn2]. exists (S (Nat.max n1 n2)). rewrite parse_suffix_S. unfold suffix_step.
   rewrite H1, H2, H3, H4, H5. rewrite (parse_args_mono n1 (Nat.max n1 n2) _ _ (Nat.le_max_l _ _) Hn1).
-  exact (parse_suffix_mono n2 _ _ _ _ _ _ (Nat.le_max_r _ _) Hn2).
+  exact (parse_suffix_mono n2 _ _ _ _ _ _ _ (Nat.le_max_r _ _) Hn2).
 Qed.
 
 Lemma A_nil t r : is_close t = true -> PAx (t :: r) (ANil, r).
 Proof. intro H. exists 1%nat. rewrite parse_args_S. unfold args_step. rewrite H. reflexivity. Qed.
-Lemma close_not_expr n L t r : is_close t = true -> parse_expr n L (t :: r) = None.
+Lemma close_not_expr n ni L t r : is_close t = true -> parse_expr n ni L (t :: r) = None.
 Proof.
   intro H. apply tok_eqb_eq in H. subst t. destruct n; [reflexivity|]. rewrite parse_expr_S. reflexivity.
 Qed.
-Lemma A_last ts e c r' : PEx 3 ts (e, c :: r') -> is_close c = true -> PAx ts (ACons e ANil, r').
+Lemma A_last ts e c r' : PEx false 3 ts (e, c :: r') -> is_close c = true -> PAx ts (ACons e ANil, r').
 Proof.
   intros [n Hn] H1. exists (S n). rewrite parse_args_S. unfold args_step.
   destruct ts as [|t r]; [destruct n; discriminate|].
-  destruct (is_close t) eqn:Ec; [rewrite (close_not_expr n 3 t r Ec) in Hn; discriminate|].
+  destruct (is_close t) eqn:Ec; [rewrite (close_not_expr n false 3 t r Ec) in Hn; discriminate|].
   rewrite Hn, H1. reflexivity.
 Qed.
 Lemma A_more ts e c r' rest r'' :
-  PEx 3 ts (e, c :: r') -> is_close c = false -> is_comma c = true -> PAx r' (rest, r'') -> PAx ts (ACons e rest, r'').
+  PEx false 3 ts (e, c :: r') -> is_close c = false -> is_comma c = true -> PAx r' (rest, r'') -> PAx ts (ACons e rest, r'').
 Proof.
   intros [n1 Hn1] H1 H2 [n2 Hn2]. exists (S (Nat.max n1 n2)). rewrite parse_args_S. unfold args_step.
   destruct ts as [|t r]; [destruct n1; discriminate|].
-  destruct (is_close t) eqn:Ec; [rewrite (close_not_expr n1 3 t r Ec) in Hn1; discriminate|].
-  rewrite (parse_expr_mono n1 (Nat.max n1 n2) _ _ _ (Nat.le_max_l _ _) Hn1). rewrite H1, H2.
+  destruct (is_close t) eqn:Ec; [rewrite (close_not_expr n1 false 3 t r Ec) in Hn1; discriminate|].
+  rewrite (parse_expr_mono n1 (Nat.max n1 n2) _ _ _ _ (Nat.le_max_l _ _) Hn1). rewrite H1, H2.
   rewrite (parse_args_mono n2 (Nat.max n1 n2) _ _ (Nat.le_max_r _ _) Hn2). reflexivity.
 Qed.
 
-Lemma S_index L left ll t r i c r' res :
+Lemma S_index ni L left ll t r i c r' res :
   is_dot t = false -> is_lbrack t = true -> S_Call <=? ll = true ->
-  PEx 0 r (i, c :: r') -> is_rbrack c = true -> PSx L (EIndex left i) S_Member r' res -> PSx L left ll (t :: r) res.
+  PEx false 0 r (i, c :: r') -> is_rbrack c = true -> PSx ni L (EIndex left i) S_Member r' res -> PSx ni L left ll (t :: r) res.
 Proof.
   intros H1 H2 H3 [n1 Hn1] H4 [n2 Hn2]. exists (S (Nat.max n1 n2)). rewrite parse_suffix_S. unfold suffix_step.
-  rewrite H1, H2, H3. rewrite (parse_expr_mono n1 (Nat.max n1 n2) _ _ _ (Nat.le_max_l _ _) Hn1). rewrite H4.
-  exact (parse_suffix_mono n2 _ _ _ _ _ _ (Nat.le_max_r _ _) Hn2).
+  rewrite H1, H2, H3. rewrite (parse_expr_mono n1 (Nat.max n1 n2) _ _ _ _ (Nat.le_max_l _ _) Hn1). rewrite H4.
+  exact (parse_suffix_mono n2 _ _ _ _ _ _ _ (Nat.le_max_r _ _) Hn2).
 Qed.
 
-Lemma S_cond L left ll t r y c r' no r'' res :
+Lemma S_cond ni L left ll t r y c r' no r'' res :
   is_dot t = false -> is_lbrack t = false -> is_open t = false -> is_quest t = true -> S_Cond <=? L = false -> S_Cond <? ll = true ->
-  PEx 3 r (y, c :: r') -> is_colon c = true -> PEx 3 r' (no, r'') ->
-  PSx L (ECond left y no) S_Cond r'' res -> PSx L left ll (t :: r) res.
+  PEx false 3 r (y, c :: r') -> is_colon c = true -> PEx ni 3 r' (no, r'') ->
+  PSx ni L (ECond left y no) S_Cond r'' res -> PSx ni L left ll (t :: r) res.
 Proof.
   intros H1 H2 H2o H3 H4 H5 [n1 Hn1] H6 [n2 Hn2] [n3 Hn3].
   exists (S (Nat.max n1 (Nat.max n2 n3))). rewrite parse_suffix_S. unfold suffix_step.
   rewrite H1, H2, H2o, H3, H4, H5.
-  rewrite (parse_expr_mono n1 _ _ _ _ (Nat.le_max_l _ _) Hn1). rewrite H6.
-  rewrite (parse_expr_mono n2 (Nat.max n1 (Nat.max n2 n3)) _ _ _ (Nat.le_trans _ _ _ (Nat.le_max_l n2 n3) (Nat.le_max_r n1 _)) Hn2).
-  exact (parse_suffix_mono n3 _ _ _ _ _ _ (Nat.le_trans _ _ _ (Nat.le_max_r n2 n3) (Nat.le_max_r n1 _)) Hn3).
+  rewrite (parse_expr_mono n1 _ _ _ _ _ (Nat.le_max_l _ _) Hn1). rewrite H6.
+  rewrite (parse_expr_mono n2 (Nat.max n1 (Nat.max n2 n3)) _ _ _ _ (Nat.le_trans _ _ _ (Nat.le_max_l n2 n3) (Nat.le_max_r n1 _)) Hn2).
+  exact (parse_suffix_mono n3 _ _ _ _ _ _ _ (Nat.le_trans _ _ _ (Nat.le_max_r n2 n3) (Nat.le_max_r n1 _)) Hn3).
 Qed.
 
-Lemma S_bin L left ll t o r rt r' res :
+Lemma S_bin ni L left ll t o r rt r' res :
   plain_tok t -> postfix_op t = None -> binary_op t = Some o -> spec_level o <=? L = false ->
-  left_ok o ll left = true -> PEx (right_level o) r (rt, r') -> PSx L (EBin o left rt) (spec_level o) r' res ->
-  PSx L left ll (t :: r) res.
+  ni && op_eqb o BIn = false ->
+  left_ok o ll left = true -> PEx ni (right_level o) r (rt, r') -> PSx ni L (EBin o left rt) (spec_level o) r' res ->
+  PSx ni L left ll (t :: r) res.
 Proof.
-  intros (H1 & H1b & H1o & H1c) H2 H3 H4 H5 [n1 Hn1] [n2 Hn2]. exists (S (Nat.max n1 n2)). rewrite parse_suffix_S. unfold suffix_step.
-  rewrite H1, H1b, H1o, H1c, H2, H3, H4, H5. rewrite (parse_expr_mono n1 (Nat.max n1 n2) _ _ _ (Nat.le_max_l _ _) Hn1).
-  exact (parse_suffix_mono n2 _ _ _ _ _ _ (Nat.le_max_r _ _) Hn2).
+  intros (H1 & H1b & H1o & H1c) H2 H3 H4 Hin H5 [n1 Hn1] [n2 Hn2]. exists (S (Nat.max n1 n2)). rewrite parse_suffix_S. unfold suffix_step.
+  rewrite H1, H1b, H1o, H1c, H2, H3, Hin, H4, H5. rewrite (parse_expr_mono n1 (Nat.max n1 n2) _ _ _ _ (Nat.le_max_l _ _) Hn1).
+  exact (parse_suffix_mono n2 _ _ _ _ _ _ _ (Nat.le_max_r _ _) Hn2).
 Qed.
 
 (* the loop stops in front of a token it may not take *)
@@ -149,7 +150,7 @@ Definition head_stop (M : Z) (rest : list tok) : bool :=
               && (match postfix_op t with Some _ => S_Update <=? M | None => true end)
               && (match binary_op t with Some o => spec_level o <=? M | None => true end)
   end.
-Lemma S_stop L left ll rest : head_stop L rest = true -> PSx L left ll rest (left, rest).
+Lemma S_stop ni L left ll rest : head_stop L rest = true -> PSx ni L left ll rest (left, rest).
 Proof.
   intro H. exists 1%nat. rewrite parse_suffix_S. unfold suffix_step. destruct rest as [|t r]; [reflexivity|].
   simpl in H. apply andb_true_iff in H as [H H3]. apply andb_true_iff in H as [H H2]. apply andb_true_iff in H as [H Hq].
@@ -157,7 +158,7 @@ Proof.
   apply andb_true_iff in H as [H1 Hb]. apply negb_true_iff in H1. apply negb_true_iff in Hb. rewrite H1, Hb.
   destruct (is_open t); [rewrite Ho; reflexivity|].
   destruct (is_quest t); [rewrite Hq; reflexivity|].
-  destruct (postfix_op t); [rewrite H2; reflexivity|]. destruct (binary_op t); [rewrite H3; reflexivity | reflexivity].
+  destruct (postfix_op t); [rewrite H2; reflexivity|]. destruct (binary_op t); [rewrite H3, orb_true_r; reflexivity | reflexivity].
 Qed.
 
 (* ---- operator tokens ---- *)
@@ -231,7 +232,8 @@ Definition lvl (e : expr) : Z :=
   end.
 Definition compound (e : expr) : bool :=
   match e with EUn _ _ | EBin _ _ _ | ECond _ _ _ | ECall _ _ | ENew _ _ => true | _ => false end.
-Definition wrapped (P : Z) (e : expr) : bool := compound e && (P >=? lvl e).
+(* fp: the forbidIn flag the node is printed with *)
+Definition wrapped (fp : bool) (P : Z) (e : expr) : bool := compound e && ((P >=? lvl e) || (is_in e && fp)).
 Definition new_parens (P : Z) (a : expr) : bool := negb mw || has_args a || (P >=? LPostfix).
 (* grammar stratum of the unparenthesised printed form *)
 Definition strat (P : Z) (e : expr) : Z :=
@@ -242,32 +244,7 @@ Definition strat (P : Z) (e : expr) : Z :=
   | ENew _ a => if new_parens P a then S_Member else S_New
   | _ => S_Member
   end.
-Definition ll_of (P : Z) (e : expr) : Z := if wrapped P e then S_Member else strat P e.
-(* the unparenthesised item list; only "new" looks at the level (to decide about "()") *)
-Definition body (P : Z) (e : expr) : list item :=
-  match e with
-  | ENew f a => [INew] ++ print_items LNew f ++ (if new_parens P a then [ICallOpen] ++ print_items LComma a ++ [IClose] else [])
-  | EUn _ _ | EBin _ _ _ | ECond _ _ _ | ECall _ _ => print_items (-1) e
-  | _ => print_items P e
-  end.
-
-Lemma op_level_pos o : 1 <= op_level o <= 19.
-Proof. destruct o; vm_compute; split; discriminate. Qed.
-
-Lemma print_items_split P e :
-  print_items P e = if wrapped P e then [IOpen] ++ body P e ++ [IClose] else body P e.
-Proof.
-  unfold wrapped, body. destruct e as [s|s|b f|t s|o v|o l r|c0 y0 n0|t0 i0|f0 a0|f0 a0| |x0 r0]; try reflexivity.
-  all: try (simpl compound; simpl lvl; cbn [Token.print_items]; cbv zeta; pose proof (op_level_pos o) as Hp;
-            replace (-1 >=? op_level o) with false by (symmetry; rewrite Z.geb_leb; apply Z.leb_gt; lia);
-            unfold paren; destruct (P >=? op_level o); reflexivity).
-Qed.
-
-Lemma body_cond P c y n : body P (ECond c y n) =
-  print_items LConditional c ++ [IQuest] ++ print_items LYield y ++ [IColon] ++ print_items LYield n.
-Proof. reflexivity. Qed.
-Lemma body_call P f a : body P (ECall f a) = print_items LPostfix f ++ [ICallOpen] ++ print_items LComma a ++ [IClose].
-Proof. reflexivity. Qed.
+Definition ll_of (fp : bool) (P : Z) (e : expr) : Z := if wrapped fp P e then S_Member else strat P e.
 
 Definition left_lvl (o : op) (l : expr) : Z :=
   if op_eqb o BPow && (match l with EUn u _ => negb (op_eqb u UPreDec || op_eqb u UPreInc || op_eqb u UPostDec || op_eqb u UPostInc) | ENum _ => true | _ => false end)
@@ -278,19 +255,47 @@ Definition right_lvl (o : op) (r : expr) : Z :=
   if op_eqb o BNullish && is_or_and r then LPrefix
   else if is_left_assoc o then op_level o else op_level o - 1.
 
-Lemma body_bin P o l r : body P (EBin o l r) = print_items (left_lvl o l) l ++ [IOp o] ++ print_items (right_lvl o r) r.
+(* the unparenthesised item list, printed with the inner flag fb (the outer flag, or false inside
+   parentheses); only "new" looks at the level (to decide about "()") *)
+Definition body (fb : bool) (P : Z) (e : expr) : list item :=
+  match e with
+  | ENew f a => [INew] ++ print_items false LNew f ++ (if new_parens P a then [ICallOpen] ++ print_items false LComma a ++ [IClose] else [])
+  | EUn o v => match op_kind o with KPost => print_items false (LPostfix - 1) v ++ [IOp o] | _ => [IOp o] ++ print_items false (LPrefix - 1) v end
+  | EBin o l r => print_items fb (left_lvl o l) l ++ [IOp o] ++ print_items fb (right_lvl o r) r
+  | ECond c y n => print_items fb LConditional c ++ [IQuest] ++ print_items false LYield y ++ [IColon] ++ print_items fb LYield n
+  | ECall f a => print_items false LPostfix f ++ [ICallOpen] ++ print_items false LComma a ++ [IClose]
+  | _ => print_items fb P e
+  end.
+
+Lemma op_level_pos o : 1 <= op_level o <= 19.
+Proof. destruct o; vm_compute; split; discriminate. Qed.
+
+(* member accesses, atoms and argument lists print the same under either flag *)
+Lemma flag_irrelevant fp P e : compound e = false -> print_items fp P e = print_items false P e.
+Proof. destruct e; intro H; try discriminate; reflexivity. Qed.
+
+Lemma print_items_split fp P e :
+  print_items fp P e = if wrapped fp P e then [IOpen] ++ body false P e ++ [IClose] else body fp P e.
 Proof.
-  unfold body. cbn [print_items]. cbv zeta. pose proof (op_level_pos o) as Hp.
-  replace (-1 >=? op_level o) with false by (symmetry; rewrite Z.geb_leb; apply Z.leb_gt; lia).
-  reflexivity.
+  unfold wrapped, body. destruct e as [s|s|b f|t s|o v|o l r|c0 y0 n0|t0 i0|f0 a0|f0 a0| |x0 r0]; try reflexivity;
+    simpl compound; simpl lvl; simpl is_in; cbn [Token.print_items]; cbv zeta; unfold paren, left_lvl, right_lvl, new_parens.
+  - rewrite orb_false_r. destruct (P >=? op_level o); reflexivity.
+  - destruct (P >=? op_level o); destruct fp; destruct (op_eqb o BIn); reflexivity.
+  - rewrite orb_false_r. destruct (P >=? LConditional); destruct fp; reflexivity.
+  - rewrite orb_false_r. destruct (P >=? LNew); reflexivity.
+  - rewrite orb_false_r. destruct (P >=? LCall); reflexivity.
 Qed.
-Lemma body_un P o v : body P (EUn o v) =
-  match op_kind o with KPost => print_items (LPostfix - 1) v ++ [IOp o] | _ => [IOp o] ++ print_items (LPrefix - 1) v end.
-Proof.
-  unfold body. cbn [print_items]. pose proof (op_level_pos o) as Hp.
-  replace (-1 >=? op_level o) with false by (symmetry; rewrite Z.geb_leb; apply Z.leb_gt; lia).
-  reflexivity.
-Qed.
+
+Lemma body_cond fb P c y n : body fb P (ECond c y n) =
+  print_items fb LConditional c ++ [IQuest] ++ print_items false LYield y ++ [IColon] ++ print_items fb LYield n.
+Proof. reflexivity. Qed.
+Lemma body_call fb P f a : body fb P (ECall f a) = print_items false LPostfix f ++ [ICallOpen] ++ print_items false LComma a ++ [IClose].
+Proof. reflexivity. Qed.
+Lemma body_bin fb P o l r : body fb P (EBin o l r) = print_items fb (left_lvl o l) l ++ [IOp o] ++ print_items fb (right_lvl o r) r.
+Proof. reflexivity. Qed.
+Lemma body_un fb P o v : body fb P (EUn o v) =
+  match op_kind o with KPost => print_items false (LPostfix - 1) v ++ [IOp o] | _ => [IOp o] ++ print_items false (LPrefix - 1) v end.
+Proof. reflexivity. Qed.
 
 Lemma toks_app a b : toks (a ++ b) = toks a ++ toks b.
 Proof. unfold toks. apply flat_map_app. Qed.
@@ -371,20 +376,30 @@ Proof. destruct e; simpl; intro H; try discriminate; reflexivity. Qed.
 Lemma lvl_le e : lvl e <= S_Member.
 Proof. destruct e; simpl; unfold S_Member, LMember, LConditional, LNew, LCall; try lia; pose proof (op_level_pos o); lia. Qed.
 
-Lemma unw_strat P e : wrapped P e = false -> P < S_Member -> P < strat P e.
+Lemma wrapped_level fp P e : compound e = true -> P >=? lvl e = true -> wrapped fp P e = true.
+Proof. intros Hc H. unfold wrapped. rewrite Hc, H. reflexivity. Qed.
+Lemma unwrapped_level fp P e : compound e = true -> wrapped fp P e = false -> P < lvl e /\ (is_in e && fp = false).
 Proof.
-  unfold wrapped. intros W HP. destruct e; simpl in *; try exact HP;
-    try (rewrite Z.geb_leb in W; apply Z.leb_gt in W; unfold LConditional, LNew, LCall, S_Call in *; lia).
-  rewrite Z.geb_leb in W. apply Z.leb_gt in W. unfold new_parens.
+  intros Hc W. unfold wrapped in W. rewrite Hc in W. simpl in W. apply orb_false_iff in W as [W1 W2].
+  rewrite Z.geb_leb in W1. apply Z.leb_gt in W1. split; assumption.
+Qed.
+
+Lemma unw_strat fp P e : wrapped fp P e = false -> P < S_Member -> P < strat P e.
+Proof.
+  intros W HP. destruct (compound e) eqn:Hc; [|destruct e; try discriminate; exact HP].
+  destruct (unwrapped_level fp P e Hc W) as [W1 _]. clear W. rename W1 into W.
+  destruct e; simpl in *; try exact HP; try discriminate;
+    try (unfold LConditional, LNew, LCall, S_Call in *; lia).
+  unfold new_parens.
   destruct (negb mw || has_args e2 || (P >=? LPostfix)) eqn:E; [exact HP|].
   apply orb_false_iff in E as [_ E]. rewrite Z.geb_leb in E. apply Z.leb_gt in E. unfold S_New, LPostfix in *. lia.
 Qed.
-Lemma ll_of_ge P e : P < S_Member -> P < ll_of P e.
-Proof. intro HP. unfold ll_of. destruct (wrapped P e) eqn:W; [exact HP | apply unw_strat; assumption]. Qed.
+Lemma ll_of_ge fp P e : P < S_Member -> P < ll_of fp P e.
+Proof. intro HP. unfold ll_of. destruct (wrapped fp P e) eqn:W; [exact HP | apply (unw_strat fp); assumption]. Qed.
 
-Lemma left_ok_print o l :
+Lemma left_ok_print fp o l :
   wf l -> op_kind o = KBin -> (is_assign o = true -> is_target l = true) ->
-  left_ok o (ll_of (left_lvl o l) l) (norm l) = true.
+  left_ok o (ll_of fp (left_lvl o l) l) (norm l) = true.
 Proof.
   intros Hwf Hk Ht. rewrite left_ok_eq. destruct (is_assign o) eqn:Ea.
   - specialize (Ht eq_refl). rewrite is_target_norm, Ht.
@@ -402,28 +417,28 @@ Proof.
       * assert (o = BNullish) by (destruct o; try discriminate; reflexivity). subst o.
         destruct l as [s|s|b f|t s|u v|o2 a b|c0 y0 n0|t0 i0|f0 a0|f0 a0| |x0 r0]; try reflexivity; try (destruct Hwf; fail).
         -- destruct Hwf as (_ & Hku & _). destruct u; try (exfalso; apply Hku; reflexivity); reflexivity.
-        -- destruct o2; reflexivity.
+        -- destruct o2; try reflexivity; destruct fp; reflexivity.
         -- unfold left_lvl, ll_of, wrapped, strat. simpl. destruct (new_parens _ a0); reflexivity.
       * unfold left_lvl. rewrite Ep, En. simpl andb. cbv iota.
         rewrite (assoc_facts o Hk), Ea, Ep. simpl orb. cbv iota.
         rewrite spec_level_is_op_level. pose proof (op_level_pos o) as Hp.
-        apply Z.leb_le. pose proof (ll_of_ge (op_level o - 1) l). unfold S_Member in *. lia.
+        apply Z.leb_le. pose proof (ll_of_ge fp (op_level o - 1) l). unfold S_Member in *. lia.
 Qed.
 
-Definition lv_ok (L P : Z) (e : expr) : Prop :=
+Definition lv_ok (fp : bool) (L P : Z) (e : expr) : Prop :=
   match e with
-  | EBin o _ _ => wrapped P e = true \/ L < op_level o
-  | ECond _ _ _ => wrapped P e = true \/ (L < LConditional /\ P <= LYield)
-  | ECall _ _ => wrapped P e = true \/ L < S_Call
-  | EUn _ _ => wrapped P e = true \/ L < S_Update
+  | EBin o _ _ => wrapped fp P e = true \/ L < op_level o
+  | ECond _ _ _ => wrapped fp P e = true \/ (L < LConditional /\ P <= LYield)
+  | ECall _ _ => wrapped fp P e = true \/ L < S_Call
+  | EUn _ _ => wrapped fp P e = true \/ L < S_Update
   | _ => True
   end.
 
 Lemma right_level_eq o : right_level o = if is_assign o then 3 else if op_eqb o BPow then 16 else if op_eqb o BNullish then 8 else spec_level o.
 Proof. destruct o; reflexivity. Qed.
 
-Lemma right_ok_print o r :
-  op_kind o = KBin -> (o = BComma -> not_comma r) -> lv_ok (right_level o) (right_lvl o r) r.
+Lemma right_ok_print fp o r :
+  op_kind o = KBin -> (o = BComma -> not_comma r) -> lv_ok fp (right_level o) (right_lvl o r) r.
 Proof.
   intros Hk Hc. destruct r as [s|s|b f|t s|u v|o2 a b|c0 y0 n0|t0 i0|f0 a0|f0 a0| |x0 r0]; try exact I;
     [right; destruct o; try discriminate; reflexivity| |unfold lv_ok; destruct o; try discriminate; first [left; reflexivity | right; split; [reflexivity | discriminate]]
